@@ -273,3 +273,52 @@ def line_starts(src):
     """Byte offsets at which the lines of `src` start (what a source map is)."""
     b = src.encode()
     return [0] + [i + 1 for i, ch in enumerate(b) if ch == 10]
+
+
+FILE_MARK = "\n//@@FILE "
+PRELUDE_END = "function f1(x) { return x + 1; }\n"
+
+
+def files_of(src):
+    """The files a program text stands for, as the harness splits it: [(name, text)], the main file first."""
+    parts = src.split(FILE_MARK)
+    out = [("main.circom", parts[0] + "\n")] if len(parts) > 1 else [("main.circom", src)]
+    for p in parts[1:]:
+        name, _, text = p.partition("\n")
+        out.append((name.strip(), text))
+    return out
+
+
+def starts_field(src):
+    """Line starts of every file, files separated by `;` (file id = position: the order in which the front end
+    meets them - the main file, then its includes depth first)."""
+    return ";".join(",".join(map(str, line_starts(t))) for _n, t in files_of(src))
+
+
+LIB_USER = ("template LibUser() {\n  signal input a;\n  signal output o[2];\n  signal output p;\n"
+            "  for (var i = 0; i < 2; i++) { o[i] <== A1()(a); }\n  (p, _) <== (A1()(x1 <-- a), a);\n}\n")
+
+
+def split_program(src, three=False):
+    """The same program as a PROJECT: the callee templates (everything up to and including `f1`) move to
+    `lib.circom`, which the main file includes; with three=True `f1` moves on to `fun.circom`, included by the
+    library.  Anonymous components of the host then name templates of ANOTHER file, and generated names take their
+    line from a file with id != 0 when the sugar sits in an included file (the callee templates are desugared too)."""
+    at = src.find(PRELUDE_END)
+    if at < 0 or FILE_MARK in src:
+        return None
+    lib, rest = src[:at + len(PRELUDE_END)], src[at + len(PRELUDE_END):]
+    # a template WITH sugar in the included file: its generated names take their line from a file with id != 0
+    lib = lib[:at] + LIB_USER + lib[at:]
+    at += len(LIB_USER)
+    head = "pragma circom 2.0.0;\n"
+    main = head + 'include "lib.circom";\n' + rest
+    if not three:
+        return main.rstrip("\n") + FILE_MARK + "lib.circom\n" + lib
+    fun = head + PRELUDE_END
+    lib3 = lib[:at]
+    # the include goes after the pragmas of the library file
+    k = lib3.rfind("pragma ")
+    k = lib3.find("\n", k) + 1 if k >= 0 else 0
+    lib3 = lib3[:k] + 'include "fun.circom";\n' + lib3[k:]
+    return main.rstrip("\n") + FILE_MARK + "lib.circom\n" + lib3.rstrip("\n") + FILE_MARK + "fun.circom\n" + fun
